@@ -2,6 +2,7 @@ import PyTrie.Lemmas.FreeExec
 import PyTrie.Lemmas.FreePartial
 import PyTrie.Lemmas.FreeView
 import PyTrie.Lemmas.CacheNoDupPres
+import PyTrie.Lemmas.PruneBodiesV
 /-! # The tree-free executor (C01, C04, C06, C07 over a transcription with no tree)
 
 `Model/HexFree.lean` is `HexaryTrie.set` / `delete` / `get` as the code runs them: the trie is a root hash and a `prune`
@@ -171,5 +172,38 @@ theorem cache_keys_unique_begin (w : World) (i : Nat) : (w.batchBegin i).BatchNo
 theorem cache_keys_unique_op (Hs : Hashing) (blankRootHash : Hash) (w : World) (tg : Target) (key : Bytes) (val : Option Bytes)
     (h : w.BatchNoDup) : (w.setDel Hs blankRootHash tg key val).2.BatchNoDup :=
   World.batchNoDup_setDel Hs blankRootHash w tg key val h
+
+end PyTrie.Props.Free
+
+/-! ## The view stays complete through a block on a pruning trie
+
+These discharge the completeness hypothesis of the lockstep theorems along `squash_changes` on a pruning trie: on entry
+the batch trie reads the outer database; every batch operation keeps what it reads complete for its new root (run-level
+no-collision predicate over the view); a successful commit leaves the outer database complete for the new outer root. -/
+namespace PyTrie.Props.Free
+open PyTrie PyTrie.Hex PyTrie.HexW PyTrie.HexFree
+
+theorem view_complete_on_entry (Hs : Hashing) (blankRootHash : Hash) (w : World) (i : Nat) (hnb : w.batch = none)
+    (hcomp : Complete Hs blankRootHash w.base (w.tries[i]!)) :
+    ∃ b, (w.batchBegin i).batch = some b ∧
+      Complete Hs blankRootHash (storeDb ((w.batchBegin i).batchOpSt b).store) b.trie :=
+  batchBegin_complete Hs blankRootHash w i hnb hcomp
+
+theorem view_complete_batch_op (Hs : Hashing) (blankRootHash : Hash) (T : TrieSt) (hc : Canon T.tree) (key : Bytes)
+    (val : Option Bytes) (s : OpSt) (hfa : s.store.failAfter = none) (hinv : PruneInvV Hs blankRootHash T s)
+    (hcomp : Complete Hs blankRootHash (storeDb s.store) T) (hrs : RefSound Hs T.tree (nibs key))
+    (hnc : NoClobber (storeDb s.store) (opWrites Hs T key val))
+    (hblank : isBlank (opTree Hs T key val).1 = false → Hs.hashOf (opTree Hs T key val).1 ≠ blankRootHash)
+    (T' : TrieSt) (hok : (opSetDel Hs blankRootHash T key val s).2 = .ok T') :
+    Complete Hs blankRootHash (storeDb (opSetDel Hs blankRootHash T key val s).1.store) T' :=
+  opSetDel_prune_complete_view Hs blankRootHash T hc key val s hfa hinv hcomp hrs hnc hblank T' hok
+
+theorem complete_after_commit (Hs : Hashing) (blankRootHash : Hash) (w : World) (b : Batch) (hb : w.batch = some b)
+    (hi : b.outer < w.tries.size) (hic : b.outer < w.counts.size)
+    (hop : (w.tries[b.outer]!).prune = true) (hfa : w.failAfter = none)
+    (hinv : PruneInvV Hs blankRootHash b.trie (w.batchOpSt b))
+    (hcomp : Complete Hs blankRootHash (storeDb (w.batchOpSt b).store) b.trie) :
+    Complete Hs blankRootHash (w.batchEnd false).2.base ((w.batchEnd false).2.tries[b.outer]!) :=
+  batchEnd_complete Hs blankRootHash w b hb hi hic hop hfa hinv hcomp
 
 end PyTrie.Props.Free
